@@ -37,6 +37,8 @@ On(s, e) ==
   CASE e.e = "op" -> OnOp(s, e)
     [] e.e = "advance" -> [st |-> s, cl |-> <<>>]
     [] e.e = "newclient" -> [st |-> [s EXCEPT !.nops = 0, !.rebootPending = FALSE, !.failsSinceReboot = 0], cl |-> <<>>]
+    \* the client left SNMPv3 and came back: it may rediscover or keep what it knew - only timeliness is demanded afterwards
+    [] e.e = "relayer" -> [st |-> s, cl |-> <<>>]
     [] e.e = "reboot" -> [st |-> [s EXCEPT !.rebootPending = s.nops > 0, !.failsSinceReboot = 0], cl |-> <<>>]
     [] OTHER -> [st |-> s, cl |-> << <<"MACHINERY_unknown_event", FALSE>> >>]
 Init == tid \in 1..Len(Traces) /\ l = 1 /\ st = St0 /\ verdict = <<"ok", 0>>
